@@ -191,7 +191,7 @@ def run(tier: str, seed: int) -> dict:
                     evaluations += 1
                     nontrivial += c > 0
                     if len(samples) < 8 and c > 0 and runs % 37 == 1:
-                        samples.append(f"GP {label} pop={pop} minimize={minimize}: {c} generation transitions with a reserved elitism slot, best never worse")
+                        samples.append(f"GP {label} pop={pop} minimize={minimize}: {c} generation transitions with a reserved elitism slot checked")
     rule = (
         f"ElitismStep: all populations over {{0,1,2}}^n, n 1..{max_n}, optionally with one individual presented twice, both directions, k 1..|pop|, "
         "as list and as Population (pre-evaluated or not): exactly k members (multiset), no excluded individual strictly better than an included one "
